@@ -42,8 +42,12 @@ MODELS = {
                  ('Ddmin', 'MC_Ddmin_par3.cfg', 3000, SEQ),
                  ('Ddmin', 'MC_Ddmin_seq.cfg', 900, PARA)],
 }
-CAP = {'quick': 70, 'thorough': 900}      # explored inputs per seed
+CAP = {'quick': int(os.environ.get('VERIF_C03_CAP', '70')),
+       'thorough': 900}      # explored inputs per seed
 NRUNS = {'quick': 18, 'thorough': 200}
+# seeds explored deeper also in the quick tier (cycles of length 2-3 that
+# only close after the frontier of the default cap)
+DEEP = {'eq_term': 400}
 
 CYCLE_SEEDS = {
     'eq_const': '(declare-const x Int)\n(assert (= x 0))\n',
@@ -266,8 +270,8 @@ def main():
         S.model_check(rep, MODELS[a.tier])
     hangs = []
     for name, text in sorted(seeds_.items()):
-        toks_list, edges, texts = explore(mods, rep, name, text, CAP[a.tier],
-                                          hangs)
+        toks_list, edges, texts = explore(
+            mods, rep, name, text, max(CAP[a.tier], DEEP.get(name, 0)), hangs)
         n = len(toks_list)
         for t in toks_list:
             rep.nontrivial(common.digest(list(t)))
@@ -304,8 +308,13 @@ def main():
             if a.tier == 'thorough' or a.replay:
                 looped, nw = confirm_cycle([toks_list[u] for u in cyc],
                                            texts[cyc[0]])
+            # which kind of exchange: variables for variables (the inputs
+            # of the cycle have the same number of tokens) or a variable for
+            # a term (growing and shrinking steps)
+            sizes = {len(toks_list[u]) for u in cyc}
+            shape = 'same-size' if len(sizes) == 1 else 'size-changing'
             rep.violation(
-                f'{kind}:{muts}',
+                f'{kind}:{muts}:{shape}' if kind == 'cycle' else f'{kind}:{muts}',
                 f'the mutators propose a {kind} around seed {name}: ' +
                 ' -> '.join(f'[{x["mutator"]}] {x["after"]!r}'
                             for x in chain)[:700] +
